@@ -54,8 +54,10 @@ def make_ops(rng, cfg, profile, tier):
             ops.append({'op': 'SHUFFLE_SIM_KEPT', 'a': [rng.randrange(1 << 16)]})
         elif r < 0.855:
             ops.append({'op': 'SPLIT', 'a': [rng.randrange(2, 5)]})
-        elif r < 0.86:
+        elif r < 0.858:
             ops.append({'op': 'MC_THEN_PANEL', 'a': [rng.randrange(5)]})
+        elif r < 0.86:
+            ops.append({'op': 'REDECLARE', 'a': []})
         elif r < 0.9:
             ops.append({'op': 'BOOT_EST', 'a': [rng.choice(list(range(1, ni + 3))), rng.randrange(5)]})
         else:
@@ -420,6 +422,23 @@ class Session:
                              'being declared panel', ids_now, list(vals), self.reference('mc', betas))
                 ctx.probe('Monte-Carlo evaluation before and after panel() on one Database')
                 ctx.log(kind, a[0])
+        elif kind == 'REDECLARE':
+            # the table is declared panel AGAIN (what a user does after changing it): the map is that of the table as it is
+            seq_ = [float(v_) for v_ in self.db.data['pid'].to_list()]
+            if 1 + sum(1 for x_, y_ in zip(seq_, seq_[1:]) if x_ != y_) != len(set(seq_)):
+                # rows of one individual are no longer consecutive (re-arranged in place): declaring is refused, rightly
+                ctx.log(kind, 'skip-not-contiguous')
+                ctx.state([kind, len(self.rows), len({r['pid'] for r in self.rows}), self.stale])
+                return
+            self.db.panel('pid')
+            self.check_map()
+            n_ = len({r_['pid'] for r_ in self.rows})
+            for what_, v_ in (('get_sample_size()', self.db.get_sample_size()), ('getSampleSize()', self.db.getSampleSize())):
+                if int(v_) != n_:
+                    ctx.fail('I09.size', f'{what_} = {v_} after the table was declared panel again; it holds {n_} individuals')
+            self.stale = False
+            ctx.probe('table declared panel again')
+            ctx.log(kind)
         elif kind == 'SPLIT':
             # folds of a panel table are made of whole individuals (no group column given: the panel column is used)
             k_ = min(a[0], len({r['pid'] for r in self.rows}))
@@ -559,6 +578,10 @@ class Session:
             e.get_value_c(database=self.db, betas=betas, number_of_draws=self.cfg['R'], aggregation=True,
                           prepare_ids=True)
             self._after_eval(form)
+            n_ = len({r_['pid'] for r_ in self.rows})
+            if int(self.db.getSampleSize()) != n_:
+                ctx.fail('I09.size', f'getSampleSize() (old spelling of get_sample_size) = {self.db.getSampleSize()}; the table '
+                                     f'holds {n_} individuals')
             ctx.log(kind)
         else:
             raise RuntimeError(kind)
